@@ -1,6 +1,6 @@
-CONSTANTS MaxLen = 0  MaxArgs = 2  MaxLen2 = 0  Bug = "Clamp32"  Emit = FALSE
+CONSTANTS MaxLen = 0  MaxArgs = 2  MaxLen2 = 0  Bug = "Clamp32"  AdjLen = 3  Emit = FALSE
 CONSTANT Families = {"val"}
-CONSTANT Alphabet <- MCAlphabet  Alphabet2 <- MCAlphabet2  ScanVals <- MCScanVals  Vals <- MCVals  WidthStrs <- MCWidthStrsQuick
+CONSTANT Alphabet <- MCAlphabet  Alphabet2 <- MCAlphabet2  ScanVals <- MCScanVals  Vals <- MCVals  AdjTokens <- MCAdjTokens  WidthStrs <- MCWidthStrsQuick
 INIT Init
 NEXT Next
 INVARIANT NoMismatch
